@@ -137,6 +137,22 @@ let op_delta_safes = function
       if DeltaColorOnly.safesb c Delta.init (Delta.number_from O (lines_of_arg lines)) then "true" else "false"
   | _ -> "BADARGS"
 
+(* merge_run lines : the merge-conflict handler model on the lines of one combined-diff hunk body *)
+let op_merge_run = function
+  | [ lines ] ->
+      let s = MergeConflictInst.code_run (lines_of_arg lines) in
+      let str = function
+        | MergeConflict.OBar -> "B"
+        | MergeConflict.OHdr MergeConflict.Ours -> "Ho"
+        | MergeConflict.OHdr MergeConflict.Theirs -> "Ht"
+        | MergeConflict.OHdr MergeConflict.Anc -> "Ha"
+        | MergeConflict.OMinus t -> "M:" ^ hex_of_text t
+        | MergeConflict.OPlus t -> "P:" ^ hex_of_text t
+        | MergeConflict.OHunk t -> "L:" ^ hex_of_text t in
+      let m = match MergeConflict.md s with MergeConflict.Outside -> "out" | MergeConflict.Inside _ -> "in" in
+      "OK\t" ^ m ^ "\t" ^ S.concat ";" (L.map str (MergeConflict.outp s))
+  | _ -> "BADARGS"
+
 (* ---- styles (C12, C09) *)
 let color_of_string w =
   if w = "normal" || w = "-" then None
@@ -514,6 +530,7 @@ let dispatch = function
   | "delta_prefix" :: args -> op_delta_prefix args
   | "delta_sides" :: args -> op_delta_sides args
   | "delta_safes" :: args -> op_delta_safes args
+  | "merge_run" :: args -> op_merge_run args
   | "blame_run" :: args -> op_blame_run args
   | "blame_spec" :: args -> op_blame_spec args
   | "ping" :: _ -> "pong"
